@@ -29,6 +29,7 @@ TITLES = {
     'spaces': 'in ner  words and trailing blanks  ',
     'lead': '  leading blanks',
     'long': ('0123456789' * 10),
+    'blank': '   ',                  # nothing but blanks
     # characters that are line boundaries for str.splitlines but not for a text file (form feed, vertical tab, FS)
     'ctl': 'page 1\x0cpage 2\x0bsection\x1c.',
     'unicode': 'box at 25 \u00b0C, \u03b1-helix \u2013 caf\u00e9',     # non-ASCII: characters != bytes
@@ -174,6 +175,8 @@ def build_spec(case, seed):
         spec['title'] = TITLES['spaces']
         spec['box'] = BOXES[case['box']]
         spec['declared'] = bool(case['declared'])
+        if case['n'] >= 3:
+            spec['bulk'] = 'batches'          # two writelines() calls, then the rest record by record
     else:
         raise AssertionError(p)
     return spec
@@ -206,7 +209,13 @@ def roundtrip(path, spec):
             g.position_format = (spec['fmt'] + 5, spec['fmt'])
         if spec['declared']:
             g.natoms = len(spec['records'])
-        if spec['bulk']:
+        if spec['bulk'] == 'batches':
+            k = max(1, len(spec['records']) // 3)
+            g.writelines(spec['records'][:k])
+            g.writelines(spec['records'][k:2 * k])
+            for r in spec['records'][2 * k:]:
+                g.writeline(r)
+        elif spec['bulk']:
             g.writelines(spec['records'])
         else:
             for r in spec['records']:
@@ -316,7 +325,7 @@ class C13(Check):
     technique = ('exhaustive enumeration of four input sub-products on the real GroFile writer and reader over '
                  'real files; statement oracle + independent reference reader on the written bytes')
     level_text = ('every member of P1 (12x12 names x 10x10 numbers), P2 (7 formats x 54 boundary triples x velocities x '
-                  '1..3 records), P3 (7 formats x velocities x 6 titles x 12 boxes (incl. one for each single off-diagonal component) x count mode), P4 (interaction product, '
+                  '1..3 records), P3 (7 formats x velocities x 7 titles x 12 boxes (incl. one for each single off-diagonal component) x count mode), P4 (interaction product, '
                   '3024 x 1..3 records) and 299/300-record files is written by the real writer to a real file and read '
                   'back, in both tiers; thorough adds the full 18^3 cube of the coordinate alphabet per format x velocities '
                   'and the sizes 9, 10, 99, 100; coverage of that finite product, not a proof over all reals / strings')
